@@ -118,7 +118,10 @@ TImageEnd == /\ Is("image.end") /\ saved # <<>> /\ saved' = <<>>
              /\ flushReq' = saved[1][12] /\ compactReq' = saved[1][13] /\ expect' = saved[1][14] /\ durable' = saved[1][15]
              /\ ever' = saved[1][16] /\ lost' = saved[1][17] /\ crashes' = saved[1][18] /\ removed' = saved[1][19] /\ leaked' = saved[1][20]
 
-TNext == TReset \/ TOpen \/ TAdd \/ TRotate \/ TRemove \/ TEvict
+\* one large segment written by Flush + Close and read back by a fresh session: every acknowledged document is found
+TBulk == /\ Is("bulk") /\ Stutter /\ Keep /\ Ev.ok /\ Ev.acked = Ev.n
+         /\ (Ev.cv => Ev.foundV = Ev.n) /\ (Ev.ct => Ev.foundT = Ev.n)
+TNext == TBulk \/ TReset \/ TOpen \/ TAdd \/ TRotate \/ TRemove \/ TEvict
          \/ TFlushCall \/ TPicked \/ TFlushId \/ TFlushCreate \/ TFlushWritten \/ TFlushClose \/ TFlushReg \/ TFlushDropped \/ TFlushRet
          \/ TReqBg \/ TBgBegin \/ TBgEnd \/ TCloseCall \/ TCloseRet
          \/ TSearchStart \/ TSearchSeg \/ TSearchRet
